@@ -91,16 +91,16 @@ func init() {
 				return
 			}
 			x.Release()
-			x.Data["pair"] = pr
+			x.Put("pair", pr)
 			var conns []*grpc.ClientConn
 			closeAll := func() {
 				for _, c := range conns {
 					c.Close()
 				}
 			}
-			x.Data["close"] = func() { closeAll(); pr.gc.Close() }
+			x.Put("close", func() { closeAll(); pr.gc.Close() })
 			d := newDone(x)
-			x.Data["d"] = d
+			x.Put("d", d)
 			for i, pat := range strings.Split(p["pat"], ",") {
 				id := uint32(10 + i)
 				ds, order, gap, start := parsePat(pat)
@@ -131,7 +131,7 @@ func init() {
 					cc, err := db.Dial(id)
 					x.Obs("dial%d err=%v", id, err != nil)
 					if err != nil {
-						x.Data[fmt.Sprintf("derr%d", id)] = fmt.Sprintf("Dial: %v after %v", err, x.Now()-t0)
+						x.Put(fmt.Sprintf("derr%d", id), fmt.Sprintf("Dial: %v after %v", err, x.Now()-t0))
 						return
 					}
 					conns = append(conns, cc)
@@ -141,7 +141,7 @@ func init() {
 					got, err := pingTag(ctx, cc)
 					x.Obs("ping%d err=%v tag=%s", id, err != nil, got)
 					if err != nil {
-						x.Data[fmt.Sprintf("derr%d", id)] = fmt.Sprintf("first RPC: %v after %v", err, x.Now()-t0)
+						x.Put(fmt.Sprintf("derr%d", id), fmt.Sprintf("first RPC: %v after %v", err, x.Now()-t0))
 						return
 					}
 					if got != tag {
